@@ -124,7 +124,13 @@ func runWorker(bin string, job Job, scratch string, stuckAfter, hardLimit time.D
 	if err := os.WriteFile(jobPath, b, 0o644); err != nil {
 		return nil, "", err
 	}
-	cmd := exec.Command(bin, "-test.run", "^TestWorker$", "-test.cpu", "1", "-test.timeout", "0", "-test.count", "1")
+	testCPU := "1"
+	for _, e := range extraEnv {
+		if strings.HasPrefix(e, "FALCOSIM_TESTCPU=") {
+			testCPU = strings.TrimPrefix(e, "FALCOSIM_TESTCPU=")
+		}
+	}
+	cmd := exec.Command(bin, "-test.run", "^TestWorker$", "-test.cpu", testCPU, "-test.timeout", "0", "-test.count", "1")
 	cmd.Env = append(os.Environ(), "FALCOSIM_JOB="+jobPath, "FALCOSIM_REPO="+repoDir)
 	cmd.Env = append(cmd.Env, extraEnv...)
 	cmd.Dir = scratch
@@ -410,6 +416,16 @@ func runSimCheck(id, tier string, seed uint64, p propInfo, scratch string, start
 		fmt.Printf("falcosim: %s — %s\n", h.Violation.Key, firstLine(h.Violation.Detail))
 	}
 
+	var raceCov map[string]any
+	if id == "C18" {
+		var raceReported []string
+		var code int
+		raceCov, raceReported, code = runRacePhase(id, tier, seed, scratch, kf, knownHit)
+		if code == 2 {
+			return 2
+		}
+		reported = append(reported, raceReported...)
+	}
 	wall := time.Since(start).Seconds()
 	cov := map[string]any{
 		"evaluations":         m.evals,
@@ -433,6 +449,9 @@ func runSimCheck(id, tier string, seed uint64, p propInfo, scratch string, start
 	}
 	if len(m.samples) == 0 {
 		cov["samples"] = []any{"no non-trivial sampled case was rendered in this run"}
+	}
+	if raceCov != nil {
+		cov["race_mode"] = raceCov
 	}
 	writeEvidence(id, tier, seed, p.Level, cov, wall, len(reported))
 	for _, e := range kf.forProperty(id) {
@@ -602,7 +621,7 @@ func runDeterminism(id string) int {
 			defer func() { <-sem }()
 			gmp := []string{"1", "4", "16"}[i%3]
 			job := Job{Mode: "determinism", Property: id, Tier: "quick", Seed: seed, From: 0, To: n, Worker: i}
-			o, _, err := runWorker(bi.Bin, job, scratch, 5*time.Minute, 30*time.Minute, []string{"GOMAXPROCS=" + gmp})
+			o, _, err := runWorker(bi.Bin, job, scratch, 5*time.Minute, 30*time.Minute, []string{"FALCOSIM_TESTCPU=" + gmp})
 			if err != nil {
 				errs[i] = err
 				return
